@@ -4,8 +4,10 @@ import (
 	"bytes"
 	"encoding/hex"
 	"fmt"
+	"math/rand"
 	"os"
 	"path/filepath"
+	"sync"
 	"time"
 
 	"github.com/bartossh/Computantis/src/aeswrapper"
@@ -54,10 +56,90 @@ func c20Region(pos, n int) string {
 	}
 }
 
+// c20Concurrent: several wallets saved at the same moment in to different files of one directory (shared and distinct
+// keys), then read back: every file holds exactly the wallet that was saved in to it.
+func c20Concurrent(w *core.WorkerCtx, rng *rand.Rand) {
+	r := w.R
+	sealer := aeswrapper.New()
+	rounds := w.Pick(6, 60)
+	for round := 0; round < rounds; round++ {
+		k := 2 + rng.Intn(7)
+		shared := make([]byte, 16+16*(round%2))
+		rng.Read(shared)
+		type job struct {
+			w0 wallet.Wallet
+			h  fileoperations.Helper
+		}
+		jobs := make([]job, k)
+		dir := filepath.Join(w.Scratch, fmt.Sprintf("conc_%d", round))
+		os.MkdirAll(dir, 0o755)
+		for i := range jobs {
+			w0, err := wallet.New()
+			if err != nil {
+				r.Inconc("wallet.New failed: " + err.Error())
+				return
+			}
+			key := shared
+			if round%3 == 2 {
+				key = make([]byte, len(shared))
+				rng.Read(key)
+			}
+			path := filepath.Join(dir, fmt.Sprintf("w%d", i))
+			jobs[i] = job{w0, fileoperations.New(fileoperations.Config{WalletPath: path, WalletPasswd: hex.EncodeToString(key), WalletPemPath: path + ".pem"}, sealer)}
+		}
+		w.Mark("concurrent saves round %d wallets %d", round, k)
+		start := make(chan struct{})
+		errs := make([]error, k)
+		perr := make([]error, k)
+		var wg sync.WaitGroup
+		for i := range jobs {
+			wg.Add(1)
+			go func(i int) {
+				defer wg.Done()
+				<-start
+				for rep := 0; rep < 3; rep++ {
+					errs[i] = jobs[i].h.SaveWallet(&jobs[i].w0)
+					perr[i] = jobs[i].h.SaveToPem(&jobs[i].w0)
+				}
+			}(i)
+		}
+		close(start)
+		wg.Wait()
+		for i := range jobs {
+			r.Eval(1)
+			r.Count("c20_concurrent_saves", 1)
+			r.Nontriv(fmt.Sprintf("concurrent/%d-wallets/sharedkey=%v", k, round%3 != 2))
+			if errs[i] != nil {
+				r.Violate("C20", "concurrent/save-failed", fmt.Sprintf("SaveWallet failed while %d wallets were saved in to different files of one directory: %v", k, errs[i]), nil)
+				continue
+			}
+			o := c20Read(jobs[i].h)
+			switch {
+			case o.panicked != nil:
+				r.Violate("C20", "panic/concurrent-save", fmt.Sprintf("ReadWallet panicked after concurrent saves: %v", o.panicked), nil)
+			case o.err != nil:
+				r.Violate("C20", "concurrent/saved-wallet-unreadable", fmt.Sprintf("a wallet saved (without error) at the same time as %d others in the same directory cannot be read back: %v", k-1, o.err), nil)
+			case !bytes.Equal(o.w.Private, jobs[i].w0.Private) || o.w.Address() != jobs[i].w0.Address():
+				r.Violate("C20", "concurrent/different-wallet-returned", fmt.Sprintf("file %d of %d saved at the same time reads back as a different wallet (address %s instead of %s)", i, k, o.w.Address(), jobs[i].w0.Address()), nil)
+			}
+			if perr[i] == nil {
+				wp, err := jobs[i].h.ReadFromPem()
+				if err != nil || !bytes.Equal(wp.Private, jobs[i].w0.Private) || !bytes.Equal(wp.Public, jobs[i].w0.Public) {
+					r.Violate("C20", "concurrent/pem-differs", fmt.Sprintf("PEM file %d of %d saved at the same time reads back differently (err=%v)", i, k, err), nil)
+				}
+			} else {
+				r.Violate("C20", "concurrent/pem-save-failed", fmt.Sprintf("SaveToPem failed during concurrent saves: %v", perr[i]), nil)
+			}
+		}
+		os.RemoveAll(dir)
+	}
+}
+
 func c20Worker(w *core.WorkerCtx) {
 	r := w.R
 	rng := core.Rand(w.Seed, "C20", w.Batch)
 	dir := w.Scratch
+	c20Concurrent(w, core.Rand(w.Seed, "C20conc", w.Batch))
 	wallets := w.Pick(5, 80)
 	sealer := aeswrapper.New()
 	for wi := 0; wi < wallets; wi++ {
@@ -203,7 +285,7 @@ func init() {
 	core.Register(&core.Check{
 		Spec: core.Spec{
 			Prop:        "C20",
-			Rule:        "For every generated wallet (16 and 32 byte keys alternating): save/read round trip through encrypted GOB and PEM must return identical keys and address; then the encrypted file is replaced by every truncation 0..len-1, by 4 different single byte changes at every offset, by zero extensions, and read with every 1-bit neighbour of the key and 64 PRNG keys: ReadWallet (and Decrypt directly) must return an error; a returned wallet or a panic (recover) is a violation. Exhaustive over offsets and key bits for each wallet. Non-trivial = every corrupted/truncated/wrong-key case; distinct by (kind, offset, file region, key length).",
+			Rule:        "For every generated wallet (16 and 32 byte keys alternating): save/read round trip through encrypted GOB and PEM must return identical keys and address; then the encrypted file is replaced by every truncation 0..len-1, by 4 different single byte changes at every offset, by zero extensions, and read with every 1-bit neighbour of the key and 64 PRNG keys: ReadWallet (and Decrypt directly) must return an error; a returned wallet or a panic (recover) is a violation. Exhaustive over offsets and key bits for each wallet. Besides: 2-8 wallets saved at the same moment (3 times each, GOB and PEM) in to different files of one directory, with a shared or with distinct keys, must each read back as the wallet that was saved in to that file. Non-trivial = every corrupted/truncated/wrong-key case; distinct by (kind, offset, file region, key length).",
 			Assumptions: []string{"AES-GCM tag forgery probability is negligible", "wallets come from wallet.New (crypto/rand), keys from the seeded PRNG"},
 			Exhaustive:  true,
 			MinEvals:    2000, MinNontriv: 500,
